@@ -5,7 +5,7 @@ import copy
 import numpy as np
 import pandas as pd
 
-from vf.gen import synth_daily, synth_hourly, billing_reads, daily_weather, daily_usage
+from vf.gen import synth_daily, synth_hourly, billing_reads, daily_weather, daily_usage, daily_index
 
 DAILY_PROFILES = {
     "current": ("current", None),
@@ -67,7 +67,7 @@ def fit_hourly(rng, profile="default", tz="America/Chicago", days=365, ghi=False
 
 
 def daily_reporting_df(rng, tz, start, n, with_observed=True, temp_nan=0.0, obs_nan=0.0, temp_inf=0, run=None, mean=None):
-    idx = pd.date_range(pd.Timestamp(start, tz=tz), periods=n, freq="D")
+    idx = daily_index(tz, start, n)
     T = np.round(daily_weather(rng, idx, mean=mean), 2)
     y, _ = daily_usage(rng, T, idx, kind="both", base=20, hb=52, hs=1.0, cb=68, cs=0.7, noise=0.05)
     df = pd.DataFrame({"temperature": T}, index=idx)
